@@ -20,7 +20,7 @@ func init() {
 		Mutants: []Mutant{
 			{Name: "mailbox-always-schedule", File: wq + "sharded_mailbox.go", Old: "\tif !shard.scheduled {\n\t\tshard.scheduled = true", New: "\tif true {\n\t\tshard.scheduled = true", Expect: "C37/R2-sched*"},
 			{Name: "mailbox-schedule-no-invoke", File: wq + "sharded_mailbox.go", Old: "\tif shouldSchedule {\n\t\tm.invokeShard(shard)\n\t}", New: "\tif shouldSchedule && depth > 1 {\n\t\tm.invokeShard(shard)\n\t}", Expect: "C37/R2-sched*"},
-			{Name: "mailbox-finish-no-recheck", File: wq + "sharded_mailbox.go", Old: "\tneedsSchedule := len(shard.queue) > 0 && !shard.closed && !shard.parent.closed.Load()\n\tif needsSchedule {\n\t\tshard.scheduled = true\n\t}\n\tshard.mu.Unlock()", New: "\tshard.mu.Unlock()\n\tshard.mu.Lock()\n\tneedsSchedule := len(shard.queue) > 0 && !shard.closed && !shard.parent.closed.Load()\n\tif needsSchedule {\n\t\tshard.scheduled = true\n\t}\n\tshard.mu.Unlock()", Expect: "C37/R2-finish*"},
+			{Name: "mailbox-finish-no-recheck", File: wq + "sharded_mailbox.go", Old: "\tneedsSchedule := len(shard.queue) > 0 && shard.parent.ctx.Err() == nil\n\tif needsSchedule {\n\t\tshard.scheduled = true\n\t}\n\tshard.mu.Unlock()", New: "\tshard.mu.Unlock()\n\tshard.mu.Lock()\n\tneedsSchedule := len(shard.queue) > 0 && shard.parent.ctx.Err() == nil\n\tif needsSchedule {\n\t\tshard.scheduled = true\n\t}\n\tshard.mu.Unlock()", Expect: "C37/R2-finish*"},
 			{Name: "mailbox-finish-done-and-invoke", File: wq + "sharded_mailbox.go", Old: "\t\tshard.parent.invokeShard(shard)\n\t\treturn\n\t}\n\tshard.parent.wg.Done()", New: "\t\tshard.parent.invokeShard(shard)\n\t}\n\tshard.parent.wg.Done()", Expect: "C37/R2-finish*"},
 			{Name: "mailbox-submit-closed-unlocked", File: wq + "sharded_mailbox.go", Old: "\tshard.mu.Lock()\n\tif shard.closed || m.closed.Load() {\n\t\tshard.mu.Unlock()\n", New: "\tif shard.closed || m.closed.Load() {\n\t\tm.observeAdmission(shard.id, resultClosed)\n\t\treturn ErrClosed\n\t}\n\tshard.mu.Lock()\n\tif false {\n\t\tshard.mu.Unlock()\n", Expect: "C37/R1-lock.Mailbox*"},
 			{Name: "mailbox-invoke-error-dropped", File: wq + "sharded_mailbox.go", Old: "\tcase errors.Is(err, ants.ErrPoolClosed):\n\t\tm.finishShardDrain(shard)\n\tdefault:\n\t\tm.finishShardDrain(shard)", New: "\tcase errors.Is(err, ants.ErrPoolClosed):\n\t\tm.finishShardDrain(shard)\n\tdefault:", Expect: "C37/R2-invoke*"},
@@ -52,7 +52,7 @@ func c37(c *Ctx) {
 	c37Pool(c, wq, "BoundedPool", "submit", false)
 	c37Pool(c, wq, "BoundedBatchPool", "Submit", true)
 	c.Min("R2-sched", 9)
-	c.Min("R2-finish", 10)
+	c.Min("R2-finish", 8)
 	c.Min("R3-slots", 15)
 	c.Min("R3-handoff", 8)
 	c.Min("R3-taskwg", 10)
@@ -131,8 +131,11 @@ func c37Mailbox(c *Ctx, wq string) {
 	c.StoreShape("R2-finish", finish, "*.scheduled", "false", "true")
 	c.SameSection("R2-finish", finish, "shard.mu", setFalse, setTrue)
 	c.SameSection("R2-finish", finish, "shard.mu", setFalse, CallTo{"len(shard.queue)"})
-	c.c26GuardPS("R2-finish", finish, setTrue, "len(shard.queue) > 0", "!shard.closed", "!sync/atomic.Bool.Load(shard.parent.closed)")
-	c.c26GuardPS("R2-finish", finish, CallTo{"sync.WaitGroup.Done"}, "len(shard.queue) <= 0 || shard.closed || sync/atomic.Bool.Load(shard.parent.closed) || shard == nil")
+	// (a shard is re-armed whenever an item is queued, closed or not: Close waits on the wait-group, and an item
+	// admitted in the drain's tail window must still run; only a dead runtime context abandons the queue —
+	// the earlier form of these two rules tied re-arming to !closed, which was defect C37/X2-retire.Mailbox)
+	c.c26GuardPS("R2-finish", finish, setTrue, "len(shard.queue) > 0", "context.Context.Err(*) == nil")
+	// (when the shard is retired instead — wg.Done — is decided by X2-retire.Mailbox in zz_ext_c37.go)
 	c.c26Typestate("R2-finish", "after scheduled=false: re-armed ⇒ exactly one invokeShard and no wg.Done; not re-armed ⇒ exactly one wg.Done and no invokeShard", c26TSpec{fn: finish,
 		step: func(st int, in ssa.Instruction) int {
 			switch {
